@@ -243,3 +243,21 @@ def recv_config(extra_stubs=None, **kw) -> Config:
     cfg.single_iteration = set(RECV_LOOP)
     cfg.record_calls = {"_abnf:ABNF.validate", "_abnf:ABNF._is_valid_close_status", "_abnf:ABNF.__init__"}
     return cfg
+
+
+def mk_frame_buffer(I: Interp, run: Run, held=(), recv=None) -> Ref:
+    """A frame reader built by the repo's own constructor, with `held` chunks already buffered (as after an interrupted read).
+    The buffered chunks are put into the list the constructor creates for them; a reader that keeps them differently cannot be
+    prepared this way and the analysis says so instead of guessing."""
+    fb = I.call(run, Cls("_abnf:frame_buffer"), [recv if recv is not None else Sym("recv_fn", "func"), FALSE], {}, None)
+    if not isinstance(fb, Ref):
+        raise AnalysisError("frame_buffer() did not produce an object")
+    c = run.cell(fb)
+    c.label = "fb"
+    del run.effects[:]
+    if held:
+        lists = [(k, v) for k, v in c.fields.items() if isinstance(v, Ref) and isinstance(run.cell(v), HList) and not run.cell(v).items]
+        if len(lists) != 1:
+            raise AnalysisError(f"frame_buffer keeps its buffered chunks in an unrecognised form (empty-list fields after construction: {[k for k, _ in lists]})")
+        run.cell(lists[0][1]).items.extend(held)
+    return fb
